@@ -33,7 +33,7 @@ class _Scalarize(ast.NodeTransformer):
         self.used: set = set()
 
     def visit(self, node):
-        if isinstance(node, (ast.Subscript, ast.Attribute, ast.Call, ast.Name)):
+        if isinstance(node, ast.expr):  # any expression: cells, attributes, calls kept opaque, identity tests (`p is not a`)
             txt = ast.unparse(node)
             if txt in self.table:
                 self.used.add(txt)
@@ -78,6 +78,13 @@ class Cut:
                 found.append(n)
         if len(found) <= nth:
             raise Unsupported(f"{self.path}: {self.qualname}: loop {header!r} #{nth} not found")
+        return found[nth]
+
+    def expr(self, text: str, nth: int = 0, within=None):
+        """the nth expression node that prints exactly as `text`"""
+        found = [n for n in self.nodes(ast.expr, None, within) if ast.unparse(n) == text]
+        if len(found) <= nth:
+            raise Unsupported(f"{self.path}: {self.qualname}: expression {text!r} #{nth} not found")
         return found[nth]
 
     def test(self, text: str, nth: int = 0, within=None):
@@ -131,6 +138,10 @@ class Cut:
         ast.fix_missing_locations(fdef)
         self.module.funcs[name] = Func(fdef, self.module, None, "func")
         d = translate(self.prog, self.path, name, params, lean_name=lean_name, opaque=opaque, max_paths=max_paths)
+        # py2lean prints a Bool leaf of a raising kernel as `.ok decide (p)` (missing parentheses; no kernel of the other properties has that
+        # shape): parenthesised here, py2lean.py itself stays untouched
+        d.body = "\n".join((ln[: len(ln) - len(ln.lstrip())] + ".ok (" + ln.strip()[4:] + ")") if ln.strip().startswith(".ok decide ") else ln
+                           for ln in d.body.split("\n"))
         src = ast.unparse(marks[0] if len(marks) == 1 else ast.Module(body=list(marks), type_ignores=[])).replace("\n", "; ")
         d.source = f"{self.path}: {self.qualname}, {what} at line {marks[0].lineno}: `{src[:160]}`" + (
             f" with cells {scalar}" if scalar else "")
@@ -200,3 +211,23 @@ def check_skeletons(actual: dict, pinned_path: str, write: bool = False) -> list
         diff = "\n".join(list(difflib.unified_diff(p.split("\n"), a.split("\n"), "pinned", "current", lineterm="", n=1))[:24])
         out.append(f"{k}: differs from the pinned text (loop skeleton modelled by Model/TwinLoops.lean, or pinned twin diff):\n{diff}")
     return out
+
+
+# ------------------------------------------------------------------------------------------------ n-ary min / max
+# py2lean models `min(a, b)` / `max(a, b)` (first minimal / maximal argument wins, as in CPython); the n-ary forms are the left fold of the
+# binary one - exactly CPython's loop over the arguments.  Added here (wrapping, not editing, Exec.call_builtin) for earcut's 3-argument calls.
+from . import py2lean as _p2l
+
+if not getattr(_p2l.Exec, "_c10_nary_minmax", False):
+    _orig_call_builtin = _p2l.Exec.call_builtin
+
+    def _call_builtin(self, name, args, kwargs, node):
+        if name in ("min", "max") and len(args) > 2 and not kwargs:
+            acc = args[0]
+            for a in args[1:]:
+                acc = _orig_call_builtin(self, name, [acc, a], {}, node)
+            return acc
+        return _orig_call_builtin(self, name, args, kwargs, node)
+
+    _p2l.Exec.call_builtin = _call_builtin
+    _p2l.Exec._c10_nary_minmax = True
